@@ -72,7 +72,10 @@ inline Problem<DIM> gen_problem(uint64_t seed, int N, int order, int domain, boo
     // boundary derivatives <= 2 in the units implied by the durations
     auto bvec = [&](int k) {
         typename Problem<DIM>::Vec v;
-        double unit = std::pow(std::max(minT, 0.05), -k);
+        // (no std::pow: compilers rewrite pow(x, -1), pow(x, -2) ... differently, and generated data must be
+        // bit-identical in every build variant)
+        double unit = 1.0;
+        for (int q = 0; q < k; ++q) unit /= std::max(minT, 0.05);
         for (int d = 0; d < DIM; ++d) v(d) = r.chance(0.2) ? 0.0 : r.real(-2.0, 2.0) * std::min(unit, 1e4) * 0.5;
         return v;
     };
